@@ -48,6 +48,111 @@ func exhaustSpecs() []exhaustSpec {
 	}
 }
 
+// smallVariant is one (key set, dedup, value pattern) of a small universe.
+type smallVariant struct {
+	c     *Case
+	keys  []string
+	vals  []int32
+	setNo int64
+	dedup Tri
+	pat   int
+}
+
+// enumSmall enumerates every key set of bounded size over the universe of sp,
+// and for each set: (dedup on x every neighbour-equality pattern of values),
+// (dedup off x all-distinct), (dedup off x all-equal), (no values).
+// visit returns a violation (or nil); the first violation stops the enumeration.
+func enumSmall(sp exhaustSpec, shard, nshards int, opt OptSpec, visit func(v *smallVariant, u []string) error) (sets, variants int64, fail error, failCase *Case) {
+	u := universe(sp.alpha, sp.maxLen)
+	idx := make([]int, 0, sp.maxKeys)
+	var setNo int64
+	var rec func(start int)
+	one := func() {
+		setNo++
+		if int(setNo%int64(nshards)) != shard {
+			return
+		}
+		sets++
+		keys := make([]string, len(idx))
+		for i, j := range idx {
+			keys[i] = u[j]
+		}
+		n := len(keys)
+		npat := 1
+		if n > 1 {
+			npat = 1 << uint(n-1)
+		}
+		type variant struct {
+			dedup   Tri
+			pattern int
+			vals    bool
+		}
+		var vs []variant
+		for p := 0; p < npat; p++ {
+			vs = append(vs, variant{2, p, true})
+		}
+		vs = append(vs, variant{1, 0, true}, variant{1, npat - 1, true}, variant{0, 0, false})
+		for _, v := range vs {
+			vals := make([]int32, n)
+			id := int32(7)
+			for i := range vals {
+				if i > 0 && v.pattern&(1<<uint(i-1)) == 0 {
+					id++
+				}
+				vals[i] = id
+			}
+			o := opt
+			o[0] = v.dedup
+			c := &Case{Gen: "exhaustive", Keys: hexes(keys), Enc: "I32", HasVals: v.vals, Opt: o}
+			if v.vals {
+				for _, x := range vals {
+					c.Vals = append(c.Vals, Hex(leBytes(uint64(uint32(x)), 4)))
+				}
+			}
+			variants++
+			if err := visit(&smallVariant{c: c, keys: keys, vals: vals, setNo: setNo, dedup: v.dedup, pat: v.pattern}, u); err != nil && fail == nil {
+				fail, failCase = err, c
+			}
+		}
+	}
+	rec = func(start int) {
+		if fail != nil {
+			return
+		}
+		one()
+		if len(idx) == sp.maxKeys {
+			return
+		}
+		for j := start; j < len(u); j++ {
+			idx = append(idx, j)
+			rec(j + 1)
+			idx = idx[:len(idx)-1]
+		}
+	}
+	rec(0)
+	return
+}
+
+// reportEnumFailure prints the VIOLATION line for an enumerated case.
+func reportEnumFailure(t *testing.T, prop string, st *Stats, c *Case, err error, where string) {
+	if _, ok := err.(*violation); !ok {
+		t.Fatalf("HARNESS ERROR: %v", err)
+	}
+	c.Prop = prop
+	path := writeReplay(prop, c)
+	msg := fmt.Sprintf("VIOLATION property=%s replay=%s", prop, path)
+	fmt.Println(msg)
+	fmt.Printf("DETAIL property=%s %s\n", prop, oneLine(err.Error()))
+	st.Violations = append(st.Violations, msg)
+	t.Fatalf("%s violated in exhaustive universe %s: %v", prop, where, err)
+}
+
+func variantHash(name string, v *smallVariant, extra int) uint64 {
+	h := fnv.New64a()
+	fmt.Fprintf(h, "%s/%d/%d/%d/%v/%d", name, v.setNo, v.dedup, v.pat, v.c.HasVals, extra)
+	return h.Sum64()
+}
+
 // TestC03Exhaustive enumerates every key set of bounded size over a small
 // universe, every dedup setting, every neighbour-equality pattern of values,
 // and queries every string of the universe. VERIF_SEED is irrelevant here.
